@@ -293,3 +293,59 @@ func ReachLabels(fn *ssa.Function) []string {
 	sort.Strings(out)
 	return out
 }
+
+// CallSiteArg describes one argument of one static call site found in a function's SSA.
+type CallSiteArg struct {
+	Pos  string
+	Type string // concrete type converted to the interface parameter, or "" when the argument is not a constant conversion
+	Desc string
+}
+
+// CallArgTypes lists, for every static call of calleeName inside fnName (closures included), the concrete type that is
+// converted to the interface parameter number arg (0-based, receiver excluded). It reads the SSA built from the current source.
+func (P *Program) CallArgTypes(fnName, calleeName string, arg int) ([]CallSiteArg, error) {
+	i := strings.LastIndex(fnName, ".")
+	if i < 0 {
+		return nil, fmt.Errorf("bad function name %s", fnName)
+	}
+	sp := P.Pkgs[fnName[:i]]
+	if sp == nil {
+		return nil, fmt.Errorf("package %s not loaded", fnName[:i])
+	}
+	fn := sp.Func(fnName[i+1:])
+	if fn == nil {
+		return nil, fmt.Errorf("function %s not found", fnName)
+	}
+	var out []CallSiteArg
+	done := map[*ssa.Function]bool{}
+	var walk func(f *ssa.Function)
+	walk = func(f *ssa.Function) {
+		if f == nil || done[f] {
+			return
+		}
+		done[f] = true
+		for _, b := range f.Blocks {
+			for _, in := range b.Instrs {
+				c, ok := in.(ssa.CallInstruction)
+				if !ok {
+					continue
+				}
+				cf := c.Common().StaticCallee()
+				if cf == nil || cf.String() != calleeName || arg >= len(c.Common().Args) {
+					continue
+				}
+				a := c.Common().Args[arg]
+				site := CallSiteArg{Pos: P.Fset.Position(c.Pos()).String(), Desc: a.String()}
+				if mi, ok := a.(*ssa.MakeInterface); ok {
+					site.Type = mi.X.Type().String()
+				}
+				out = append(out, site)
+			}
+		}
+		for _, a := range f.AnonFuncs {
+			walk(a)
+		}
+	}
+	walk(fn)
+	return out, nil
+}
